@@ -203,7 +203,10 @@ class AInt:
     # symbolic bit-vector view (list of bits, index 0 = LSB) derived from known bits if absent
     def symbits(self):
         if self.sym is not None:
-            return list(self.sym)
+            if not (self.kz or self.ko):
+                return list(self.sym)
+            # known bits learnt later (branch refinement) override the literal at that position
+            return [1 if (self.ko >> i) & 1 else 0 if (self.kz >> i) & 1 else b for i, b in enumerate(self.sym)]
         out = []
         for i in range(self.bits):
             if (self.ko >> i) & 1:
